@@ -13,7 +13,8 @@ EXPLANATION = (
     "search (shared with C12b / C19c); (e) the metrics report the sizes of exactly the six maps and of the timer heap. "
     "Decides these structural clauses, not 'proportional' as a quantity."
     " (f) The is_for_us scan is left early only on a positive membership test, and wake-up times are armed only for records the cache kept."
-    " (j) stop_browse removes every record kind under the instance name. (k) The subtype reverse map is pruned on every sweep unless it is itself empty.")
+    " (j) stop_browse removes every record kind under the instance name. (k) The subtype reverse map is pruned on every sweep unless it is itself empty."
+    " (l) remove_service_type skips no instance that the stopped type's PTR records list (only a record that is not a DnsPointer).")
 UNDECIDED = ["'proportional to what active searches need' as a quantity",
              "timer growth caused by repeated announcements of long-TTL records (two pushes per record per packet until they pass)"]
 
@@ -318,6 +319,8 @@ def run(ctx, P):
     r2.followup_chain_not_restarted(ctx, P, "C20i")
     r2.stop_forgets_every_record_kind(ctx, P, "C20j")
     r2.subtype_map_pruned_on_every_sweep(ctx, P, "C20k")
+    from . import r4
+    r4.stop_forgets_every_listed_instance(ctx, P, "C20l")
     clause_f(ctx, P)
     clause_a(ctx, P)
     clause_b(ctx, P)
